@@ -713,7 +713,10 @@ def _toy(layout, point, wrong=None):
                 self.jac = {o: {i: j[np.ix_(r, c)].copy() for i, c in self.ins.items()} for o, r in self.outs.items()}
                 if self.wrong:
                     o, r, i, c = self.wrong
-                    self.jac[o][i][r, c] += WRONG_DELTA
+                    if r == "zero":  # the derivatives of output o w.r.t. input i are "forgotten"
+                        self.jac[o][i][:] = 0.0
+                    else:
+                        self.jac[o][i][r, c] += WRONG_DELTA
 
         _TOY = C16Toy
     return _TOY(layout, point, wrong)
@@ -823,6 +826,12 @@ def _judge_check(case, ok, approx, sel, names_in, names_out, lay, exact, tol, st
     fn, ins, outs = lay
     viols = []
     expected_ok = not case["wrong"]
+    if case["wrong"] and case["wrong"][1] == "zero":
+        o, _, i, _ = case["wrong"]
+        rows = [outs[o][k] for k in _selected(sel, o, len(outs[o]))]
+        cols = [ins[i][k] for k in _selected(sel, i, len(ins[i]))]
+        if not (np.abs(exact[np.ix_(rows, cols)]).max() > 0.05 > 100 * thr * (2.0 + float(fn.bound(1).max()))):
+            return viols  # the forgotten block is (nearly) zero on the selected entries: no verdict is specified
     if bool(ok) != expected_ok:
         inv = "check_jacobian-accepts-correct" if expected_ok else "check_jacobian-rejects-wrong-selected-entry"
         viols.append((inv, f"check_jacobian returned {ok}; analytic Jacobian {'is exact' if expected_ok else 'is wrong by %s in entry %s' % (WRONG_DELTA, case['wrong'])}; indices={sel} inputs={list(names_in)} outputs={list(names_out)} step={step} threshold={thr:.2e}"))
@@ -1090,7 +1099,7 @@ def _flags(case):
         if case["O"]:
             f.append("output_names-given")
         if case["wrong"]:
-            f.append("one-wrong-selected-entry")
+            f.append("forgotten-block-of-following-variable" if case["wrong"][1] == "zero" else "one-wrong-selected-entry")
     elif p == "HB":
         f.append("same-object-second-call:" + case["kind"])
         if case["same_point"]:
@@ -1117,6 +1126,8 @@ def _flags(case):
 def _wrong_selected(wrong, sel, names_in, names_out, ins, outs):
     o, r, i, c = wrong
     ni, no = list(names_in) or list(ins), list(names_out) or list(outs)
+    if r == "zero":
+        return o in no and i in ni
     return o in no and i in ni and r in _selected(sel, o, len(outs[o])) and c in _selected(sel, i, len(ins[i]))
 
 
@@ -1383,6 +1394,9 @@ def cases_B(thorough, alpha):
                     every = layout == "toy33" or (thorough and a == "FD" and stp == "scalar")
                     for w in _wrong_entries(sel, ni or list(ins), no or list(outs), ins, outs, every):
                         out.append({**base, "wrong": w})
+                    if layout == "toy54" and (ni or list(ins))[-1] == "b" and len(ni or list(ins)) > 1:
+                        # the whole block of the variable that follows the (possibly subsetted) first one is forgotten
+                        out += [{**base, "wrong": [o, "zero", "b", 0]} for o in (no or list(outs))]
     return out
 
 
